@@ -238,8 +238,12 @@ func main() {
 		for _, s := range steps {
 			parts = append(parts, fmt.Sprintf("%s@+%v", s.kind, s.gap))
 		}
+		tb := 2
+		if len(steps) == 4 {
+			tb = 1 // length 4 (reduced alphabet) is explored with one deviation only
+		}
 		scn = append(scn, &vexplore.Scenario{Name: strings.Join(parts, ","), Desc: "file operations with virtual gaps", Body: body(steps), Check: check,
-			QuickBound: 1, ThoroughBound: 2, Horizon: 5000})
+			QuickBound: 1, ThoroughBound: tb, Horizon: 5000})
 	}
 	thorough := false
 	for i, a := range os.Args {
